@@ -5,7 +5,8 @@ out, parts = sys.argv[1], sys.argv[2:]
 docs = [json.load(open(p)) for p in parts]
 base = docs[0]
 cov = base["coverage"]
-for d in docs[1:]:
+for part, d in zip(parts[1:], docs[1:]):
+    label = part.split("/")[-1].split(".")[1]
     c = d["coverage"]
     cov["evaluations"] += c["evaluations"]
     cov["distinct_nontrivial"] += c["distinct_nontrivial"]
@@ -13,9 +14,10 @@ for d in docs[1:]:
     for k, v in c.get("classes", {}).items():
         cov.setdefault("classes", {})[k] = cov.get("classes", {}).get(k, 0) + v
     for k, v in c.get("engines", {}).items():
-        cov.setdefault("engines", {})[k + "(zeroize build)"] = v
+        cov.setdefault("engines", {})[k + "(" + label + " build)"] = v
     cov["samples"] = (cov.get("samples", []) + c.get("samples", []))[:8]
     cov["zeroize_build"] = cov.get("zeroize_build", False) or c.get("zeroize_build", False)
+    cov["builds"] = cov.get("builds", [base["coverage"].get("build", "default")]) + [c.get("build", label)]
     base["wall_s"] += d["wall_s"]
     base["violations"] += d["violations"]
 cov["distinct_nontrivial_note"] = "sum over the parts: a part is a (build of the mode crates) and the same decoded case on another build is a different evaluation; within a part the count is of distinct hashes of decoded values"
